@@ -93,8 +93,10 @@ class BaseEstimator:
         self.nn_distances = validate_array(nn_distances, "nn_distances", optional=True)
         self.nn_distances = validate_nn_distances(self.nn_distances, optional=True)
         self.mu = validate_float(mu, "mu", optional=True)
-        self.ls = validate_positive_float(ls, "ls", optional=True)
-        self.ls_factor = validate_positive_float(ls_factor, "ls_factor")
+        self.ls = validate_positive_float(ls, "ls", optional=True, allow_inf=True)
+        self.ls_factor = validate_positive_float(
+            ls_factor, "ls_factor", allow_inf=True
+        )
         self.cov_func = validate_cov_func(cov_func, "cov_func", optional=True)
         self.Lp = validate_array(Lp, "Lp", optional=True)
         self.L = validate_array(L, "L", optional=True)
